@@ -235,11 +235,14 @@ def loop_lemma_path(via):
 def scaling_path():
     """running time must stay polynomial: P1 lines with n value groups whose last parenthesis is cut off (n = 4 .. 40), one free character"""
     def path(eng, ctx):
-        n = (4, 8, 16, 24, 32, 40)[eng.pick(6)]
-        line = list(b"1-0:99.97.0(%d)(0-0:96.7.19)" % n)
-        for i in range(n):
-            line += list(b"(%012dW)(%010d*s)" % (101208152415 + i, 240 + i))
-        line = line[:-1]                                 # final ')' missing
+        n = (4, 8, 16, 24, 32, 40, 600)[eng.pick(7)]
+        if eng.pick(2) == 0:
+            line = list(b"1-0:99.97.0(%d)(0-0:96.7.19)" % n)
+            for i in range(n):
+                line += list(b"(%012dW)(%010d*s)" % (101208152415 + i, 240 + i))
+            line = line[:-1]                                 # one data set with many values, final ')' missing
+        else:
+            line = list(b"1.8(1)" * (2 * n))                 # many data sets on one line
         c = sym_octet("x", "int")
         eng.add(z3.Or(c.t == 40, c.t == 41, c.t == 42, z3.And(c.t >= 48, c.t <= 57)))
         line[len(line) // 2] = c
@@ -253,8 +256,8 @@ def scenarios(tier):
     out = [Scenario(f"AutoDecoder loop with stub decoders (accept | ConstructError | ValueError free per decoder, any remembered decoder), via {via}", loop_lemma_path(via),
                     bounds={"accept/raise": "free per decoder", "remembered": "None | 0..6", "entry": via}, domains=("mc",), frontier=5, assumptions=["stub decoders (this scenario only)"], replay_cap=100)
            for via in ("payload", "dlms", "readout")]
-    out.append(Scenario("running time: P1 lines with 10..82 value groups and a missing final parenthesis, one free character", scaling_path(),
-                        bounds={"value_groups": "10, 18, 34, 50, 66, 82", "free": "one character among ( ) * digit"}, domains=("decoders", "p1"), frontier=2, assumptions=A, replay_cap=20,
+    out.append(Scenario("running time: P1 lines with 10..1202 value groups and a missing final parenthesis, one free character", scaling_path(),
+                        bounds={"value_groups": "10 ... 1202 values in one data set (last parenthesis missing) | 8 ... 1200 data sets on one line", "free": "one character among ( ) * digit"}, domains=("decoders", "p1"), frontier=2, assumptions=A, replay_cap=20,
                         engine_opts={"path_time_limit": 200}))
     for label, msg in pool(tier):
         n = len(msg)
